@@ -373,3 +373,103 @@ example : AllCand wCfg [(['2'], ['>'], ['e']), (['1'], ['>'], ['&', '2']), (['1'
   ⟨allCandB_iff _ _ _ _ _ _ (by decide +kernel), by decide +kernel⟩
 
 end Cicada.C04
+
+namespace Cicada.C04
+open Cicada.Kernel Cicada.Kernel.Table Cicada.Pipeline Cicada.SpecFd
+
+/-- **`< file` and `<<< word`** (the child's second phase, core.rs:369-387): when it succeeds, descriptor 0 is the named file
+opened for reading (`<`), or the read end of the here-string pipe (`<<<`), or untouched; descriptors 1 and 2 are
+untouched in every case; and a file that cannot be opened stops the child before exec -/
+theorem C04_stdin (cfg : Cfg) (cmd : Command) (hs : Option Fds) (t t' : Table) (hstd : Std3 t)
+    (hhs : ∀ p, hs = some p → 3 ≤ p.1 ∧ 3 ≤ p.2 ∧ p.1 ≠ p.2)
+    (hr : childStdin cfg cmd hs t = some t') :
+    t' 1 = t 1 ∧ t' 2 = t 2 ∧
+    (cmd.isHere = true → ∀ p e, hs = some p → t p.1 = some e → (t' 0).map (·.obj) = some e.obj) ∧
+    (cmd.isHere = false → cmd.isFrom = true →
+        (t' 0).map (·.obj) = some (.file ((cmd.redirectFrom.map (fun (x : Tok) => x.2)).getD []) 0)) ∧
+    (cmd.isHere = false → cmd.isFrom = false → t' 0 = t 0) := by
+  unfold childStdin at hr
+  simp only at hr
+  -- the `<` part
+  have hfrom : ∀ t1, (if cmd.isFrom then
+        (if !cfg.canRead ((cmd.redirectFrom.map (fun (x : Tok) => x.2)).getD []) then none
+         else match t.openFile cfg.lim ((cmd.redirectFrom.map (fun (x : Tok) => x.2)).getD []) 0 with
+          | none => none
+          | some (t1, fd) => some ((t1.dup2 fd 0).close fd))
+      else some t) = some t1 →
+      Std3 t1 ∧ t1 1 = t 1 ∧ t1 2 = t 2 ∧ (∀ x, 3 ≤ x → (t x).isSome → t1 x = t x) ∧
+      (cmd.isFrom = true → (t1 0).map (·.obj) = some (.file ((cmd.redirectFrom.map (fun (x : Tok) => x.2)).getD []) 0)) ∧
+      (cmd.isFrom = false → t1 0 = t 0) := by
+    intro t1 h1
+    split at h1
+    · rename_i hf
+      split at h1
+      · simp at h1
+      · split at h1
+        · simp at h1
+        · rename_i t2 fd ho
+          cases h1
+          unfold Table.openFile at ho
+          obtain ⟨a, b, c⟩ := temp_onto hstd ho (dst := 0) (by omega) true
+          simp only [↓reduceIte] at a b c
+          obtain ⟨hfd3, rfl⟩ := alloc_ge3' hstd ho
+          obtain ⟨hfree, _⟩ := alloc_spec ho
+          refine ⟨a, c 1 (by omega) (by omega), c 2 (by omega) (by omega), ?_, (fun _ => by simpa using b), (fun h => by simp [hf] at h)⟩
+          intro x hx hxs
+          have hxf : x ≠ fd := fun e => by rw [e, hfree] at hxs; simp at hxs
+          simp only [close_apply, hxf, ↓reduceIte]
+          rw [dup2_other _ _ _ _ (by omega)]; simp [hxf]
+    · rename_i hf
+      cases h1
+      exact ⟨hstd, rfl, rfl, (fun _ _ _ => rfl), (fun h => absurd h hf), (fun _ => rfl)⟩
+  split at hr
+  · simp at hr
+  · rename_i t1 h1
+    obtain ⟨hs1, h11, h12, hkeep, hfile, hsame⟩ := hfrom t1 h1
+    simp only [Option.some.injEq] at hr
+    subst hr
+    cases hh : cmd.isHere with
+    | false =>
+      simp only [Bool.false_eq_true, ↓reduceIte]
+      exact ⟨h11, h12, (fun h => by cases h), (fun _ hf => hfile hf), (fun _ hf => hsame hf)⟩
+    | true =>
+      cases hs with
+      | none =>
+        simp only [↓reduceIte]
+        exact ⟨h11, h12, (fun _ p e hp _ => by cases hp), (fun h => by cases h), (fun h => by cases h)⟩
+      | some p =>
+        obtain ⟨hp1, hp2, hne⟩ := hhs p rfl
+        simp only [↓reduceIte]
+        have hval : ∀ x, x < 3 → (((t1.close p.2).dup2 p.1 0).close p.1) x =
+            if x = 0 then ((t1.close p.2).dup2 p.1 0) 0 else t1 x := by
+          intro x hx
+          have h1 : x ≠ p.1 := by omega
+          simp only [close_apply, h1, ↓reduceIte]
+          by_cases hx0 : x = 0
+          · simp [hx0]
+          · rw [dup2_other _ _ _ _ hx0]
+            have h2 : x ≠ p.2 := by omega
+            simp [hx0, h2]
+        refine ⟨?_, ?_, ?_, (fun h => by cases h), (fun h => by cases h)⟩
+        · rw [hval 1 (by omega)]; simpa using h11
+        · rw [hval 2 (by omega)]; simpa using h12
+        · intro _ q e hq he
+          simp only [Option.some.injEq] at hq
+          rw [← hq] at he
+          rw [hval 0 (by omega)]
+          simp only [↓reduceIte]
+          have hsrc : (t1.close p.2) p.1 = some e := by
+            simp only [close_apply, hne, ↓reduceIte]
+            rw [hkeep p.1 hp1 (by simp [he])]; exact he
+          have h0 : p.1 ≠ 0 := by omega
+          rw [dup2_apply, hsrc]
+          simp [h0]
+
+/-- an unreadable `<` file: the child stops before exec (the program is not run) -/
+theorem C04_stdin_unreadable (cfg : Cfg) (cmd : Command) (hs : Option Fds) (t : Table)
+    (hf : cmd.isFrom = true) (hu : cfg.canRead ((cmd.redirectFrom.map (fun (x : Tok) => x.2)).getD []) = false) :
+    childStdin cfg cmd hs t = none := by
+  unfold childStdin
+  simp [hf, hu]
+
+end Cicada.C04
